@@ -54,6 +54,11 @@ fn alphabet(sp: &il::Scalar) -> Alphabet {
         il::Operation::assign(sp.clone(), E::add(E::sub(s(), c(4)).unwrap(), c(8)).unwrap()),
         il::Operation::assign(sp.clone(), E::and(s(), il::Constant::new(!15u64, w).into()).unwrap()),
         il::Operation::assign(sp.clone(), E::xor(s(), s()).unwrap()),
+        // constant on the left: `K + sp` is a displacement, `K - sp` is not (it negates the stack pointer)
+        il::Operation::assign(sp.clone(), E::add(c(8), s()).unwrap()),
+        il::Operation::assign(sp.clone(), E::sub(c(0x100), s()).unwrap()),
+        il::Operation::assign(sp.clone(), E::sub(c(0x100), E::sub(s(), c(4)).unwrap()).unwrap()),
+        il::Operation::assign(sp.clone(), E::sub(s(), E::scalar(r())).unwrap()),
         il::Operation::assign(sp.clone(), c(0x2000)),
         il::Operation::assign(sp.clone(), E::scalar(r())),
         il::Operation::assign(r(), s()),
